@@ -232,7 +232,8 @@ class Checker:
             self.stats["skipped"] += 1
             return
         if st != "ok":
-            self.emit("c16.%s path=%s" % (st, path), "scenario %s: %s\n%s" % (sid, st, detail), replay)
+            self.emit("c16.%s %s" % (st, B.crash_sig(detail) if st == "crash" else "path=" + path),
+                      "scenario %s (%s): %s\n%s" % (sid, path, st, detail), replay)
             return
         bad = False
         if leak:
@@ -305,16 +306,8 @@ class Checker:
                 if field_ok(m, exp, f):
                     continue
                 ev = exp_value(exp, f)
-                # tolerated here, decided elsewhere: use-vc of resolv.conf ignored when the application gave no flags
-                # (only ares_reinit under a configuration with use-vc must show it; dup after reinit decides);
-                # link-local nameservers of resolv.conf missing (the setter decides)
-                if f == "flags" and frozenset(m["flags"] | {"USEVC"}) in ev and \
-                        not (op == "reinit" and step["sys"] in ("P_full", "P_junk")):
-                    continue
-                if f == "servers" and "SERVERS" not in expmask and m["servers"] == (no_ll(ev) or [("127.0.0.1", 53, 53, "")]):
-                    continue
-                if f == "servers" and "SERVERS" not in expmask and op == "reinit" and not no_ll(ev):
-                    continue      # C15 KF-C15-5 (only link-local nameservers at reinit)
+                # (the tolerances for "use-vc ignored at init" and "link-local resolv.conf nameservers dropped at init"
+                # were removed when c6cc13b / 2c68f4e / 331dbf2 repaired KF-C16-5 / KF-C16-3)
                 self.emit("c16.model.%s at=%s %s" % (f, op, digest(f, m[f], ev)),
                           "scenario %s step %d %s: %s is %s, the specification allows %s" %
                           (sid, k, at, f, B.short(m[f], 200), B.short(ev, 200)), replay)
